@@ -234,5 +234,20 @@ CLAIMS["C13"] = {
     "technique": "typestate of the docstring cache + argument provenance (same-subject) at lookups and emitters",
     "ref": "DESIGN.md section 5 C13",
 }
+CLAIMS["C18"] = {
+    "text": "C18 is relational over pairs of packages and static analysis cannot decide it as a whole; this check decides only five "
+            "preconditions of non-interference and says so: names are resolved against the current module's own imports and own "
+            "classes before the package-wide alias table (path analysis); the package-wide tables are written only by their "
+            "pre-pass owners, never mutated through aliases of their entries, and every subscript read is dominated by a membership "
+            "test or an iteration over the table (they are defaultdicts: a read would insert); the visitor's scratch state is "
+            "emptied at function entry before it is used and no further cross-declaration state exists; the lookup of a name among "
+            "the module's imports finds it under its alias and under its own last segment (5-row table); no memo cache in the "
+            "package is under-keyed. NOT decided: everything else - the name-keyed alias table, suffix matching in the re-export "
+            "map and first-match scans over api.classes are interference channels by design, and whether they change bytes is "
+            "input dependent; the permutation clause is not decided either.",
+    "note": TRUST + "Narrowest claim of the suite: necessary conditions only.",
+    "technique": "dominance / path analysis of name resolution + write and unguarded-read inventory on the shared tables",
+    "ref": "DESIGN.md section 5 C18",
+}
 
 NOT_APPLICABLE = {}
